@@ -5,3 +5,4 @@ import CmProofs.SearchMono
 import CmProofs.SearchSim
 import CmProofs.RealNum
 import CmProofs.WcagReal
+import CmProofs.ColorReal
